@@ -124,7 +124,7 @@ func VerifC19_q_ipamPairs() {
 	verifRace([]interface{}{w.ipam}, a, b)
 }
 
-// BOUND: topology T1, the first IP allocated; a metric scrape (Collect) or a query (ByPrefix, ByKeyword) runs as one logical thread while one of {AllocateSpecificIP, AllocateInSubnet, Release, ReleaseIPs, ConfigurePool, a reservation watch event} runs as the other: an unsynchronised map access between them makes the Go runtime abort the process ("concurrent map iteration and map write"), which no request may cause (C18); same lock-set analysis and race-detector confirmation as VerifC19_q_ipamPairs
+// BOUND: topology T1, the first IP allocated; a metric scrape (Collect) or a query (ByPrefix, ByKeyword, First, ByKeyAndIPRanges) runs as one logical thread while one of {AllocateSpecificIP, AllocateInSubnet, Release, ReleaseIPs, ConfigurePool, a reservation watch event} runs as the other: an unsynchronised map access between them makes the Go runtime abort the process ("concurrent map iteration and map write"), which no request may cause (C18); a read lock taken again by a goroutine that already holds it is reported as well (it deadlocks against a queued writer; confirmed by a concurrent stress run under a watchdog); same lock-set analysis and race-detector confirmation as VerifC19_q_ipamPairs
 func VerifC18_q_scrapeVsMutators() {
 	w := vNewWorld(0)
 	if err := w.configure(); err != nil {
@@ -133,8 +133,8 @@ func VerifC18_q_scrapeVsMutators() {
 	if err := w.ipam.AllocateSpecificIP(vKeys[0], net.ParseIP(w.ips[0]), Attr{NodeName: "n1", Uid: "u1"}); err != nil {
 		panic(err)
 	}
-	reader := []int{15, 11, 12}[nondetChoice(3)]
-	writer := []int{0, 1, 5, 6, 8, 16}[nondetChoice(6)]
+	reader := []int{15, 11, 12, 9, 14}[nondetChoice(5)]
+	writer := []int{5, 8, 6, 0, 1, 16}[nondetChoice(6)] // Release and ConfigurePool first: they take the write lock on every call
 	a := w.prepRaceOp(reader)
 	b := w.prepRaceOp(writer)
 	verifRace([]interface{}{w.ipam}, a, b)
